@@ -320,7 +320,33 @@ pub fn run_mut_program(p: &Value, out: &mut String) {
                     // chunk_mut + write + advance_mut, at most n bytes of d in one chunk
                     let c = b.chunk_mut();
                     let k = c.len().min(d.len());
-                    c[..k].copy_from_slice(&d[..k]);
+                    let h = k / 2;
+                    match m {
+                        "bytewise" => {
+                            for j in 0..k {
+                                c.write_byte(j, d[j]);
+                            }
+                        }
+                        "range" => {
+                            c[0..h].copy_from_slice(&d[..h]);
+                            c[h..k].copy_from_slice(&d[h..k]);
+                        }
+                        "from" => {
+                            c[..h].copy_from_slice(&d[..h]);
+                            c[h..][..k - h].copy_from_slice(&d[h..k]);
+                        }
+                        "incl" => {
+                            if k > 0 {
+                                c[..=k - 1][h..=k - 1].copy_from_slice(&d[h..k]);
+                                c[..][0..h].copy_from_slice(&d[..h]);
+                            }
+                        }
+                        "ptr" => {
+                            let p = c.as_mut_ptr();
+                            unsafe { std::ptr::copy_nonoverlapping(d.as_ptr(), p, k) };
+                        }
+                        _ => c[..k].copy_from_slice(&d[..k]),
+                    }
                     unsafe { b.advance_mut(k) };
                     rn = k as i64;
                 }
